@@ -143,6 +143,47 @@ def inplace_name(last):
     return (last.endswith("_") and not last.endswith("__") and not last.startswith("_") and last not in NOT_INPLACE) \
         or last in EXT_MUTATORS
 
+
+# ------------------------------------------------------------------------------- process-wide settings
+# Hidden state of the PROCESS that set_random_seed does not reset and that later draws / results may depend on: torch's default
+# dtype / device, thread counts, flush-denormal, deterministic-algorithm switches, matmul precision, grad mode switched by a plain
+# call, numpy's floating-point error handling, the warnings filters ("error" turns a warning into an exception), attributes of
+# imported modules (torch.backends.cudnn.deterministic = ...), attributes of package modules / classes / module-level objects.
+# A write to one of them is a foreign source of variation for every LATER operation unless the function restores the old value
+# on every path (try/finally, a context manager, except BaseException: restore; raise).  Print options are not listed: they do
+# not reach samples, statistics or parameters.
+TORCH_PROC_EXTRA = {"use_deterministic_algorithms", "_set_deterministic_algorithms"}
+TORCH_PROC_HARMLESS = {"set_printoptions", "set_", "set_rng_state", "set_rng_state_all"}
+NUMPY_PROC_SETTERS = {"seterr", "seterrcall", "setbufsize"}
+WARNINGS_PROC_SETTERS = {"simplefilter", "filterwarnings", "resetwarnings"}
+WARNINGS_PROC_STATE = {"filters", "onceregistry", "defaultaction"}
+LIST_MUTATORS = {"append", "extend", "insert", "remove", "pop", "clear", "sort", "reverse", "update", "setdefault", "__setitem__",
+                 "__delitem__", "popitem"}
+# context managers that restore a family of settings when their block is left (normally or by an exception)
+PROC_MANAGERS = {"warnings.catch_warnings": {"warnings.filters"},
+                 "numpy.errstate": {"numpy.seterr", "numpy.seterrcall"},
+                 "numpy.testing.suppress_warnings": {"warnings.filters"}}
+
+
+def proc_setter_key(dotted):
+    """key of the process-wide setting that a call of the external function `dotted` writes (None: not a setter)."""
+    parts = dotted.split(".")
+    top, last = parts[0], parts[-1]
+    if top == "torch":
+        if last in TORCH_PROC_HARMLESS or last in TORCH_RESEED:
+            return None
+        if last.startswith("set_") or last in TORCH_PROC_EXTRA:
+            return "torch." + last
+    elif top == "numpy":
+        if last in NUMPY_PROC_SETTERS and "random" not in parts:
+            return "numpy." + last
+    elif top == "warnings":
+        if last in WARNINGS_PROC_SETTERS and len(parts) == 2:
+            return "warnings.filters"
+        if len(parts) == 3 and parts[1] in WARNINGS_PROC_STATE and last in LIST_MUTATORS:
+            return "warnings.filters"             # warnings.filters.insert(0, ...)
+    return None
+
 PURE_BUILTINS = {"len", "range", "isinstance", "issubclass", "list", "dict", "int", "float", "str", "min", "max",
                  "abs", "zip", "enumerate", "map", "filter", "iter", "next", "callable", "hasattr", "getattr", "print",
                  "repr", "sorted", "reversed", "slice", "super", "tuple", "type", "bool", "sum", "any", "all", "set",
@@ -768,6 +809,7 @@ class FnVisitor:
         self.callable_alias, self.lambda_alias, self.followed, self.escaping_lambdas = {}, {}, set(), []
         self.call_funcs = set()
         self.own_names = set()
+        self._proc_ok, self._proc_events = None, None     # process-wide settings: ids of restored writes / all writes
 
     # ------------------------------------------------------------ scope
     def body_nodes(self):
@@ -1032,6 +1074,249 @@ class FnVisitor:
             return
         for n in self.walk_scope(self.body + self.extra):
             self.visit(n)
+
+    # ------------------------------------------------------------ process-wide settings (hidden global state)
+    # A write to a process-wide setting (table above proc_setter_key; stores into attributes of imported modules, package
+    # modules, package classes and module-level objects) is reported as Environ -- a foreign source for every later operation --
+    # unless it is RESTORED ON EVERY PATH out of the function:
+    #   * the call is itself the context manager of a `with` (with torch.set_grad_enabled(False): ...);
+    #   * it stands in the block of a `with` whose manager restores that family (warnings.catch_warnings, numpy.errstate);
+    #   * it stands in the body of a try whose finally-clause writes the same setting from a saved local value, or directly
+    #     before such a try (only call-free / getter-only statements in between);
+    #   * it is that restoring write (in a finally-clause; in `except BaseException: ...; raise` paired with the same write on
+    #     the normal path);
+    #   * it stands in __enter__ / __exit__ of a class whose __exit__ writes the same setting from a saved value.
+    # A restore that is merely the last statement of the function (no try/finally) is NOT enough: a user callback, metric or
+    # observable that raises in between (or Ctrl-C) leaves the setting changed for the rest of the process.
+    def proc_call_key(self, call):
+        f = call.func
+        if isinstance(f, ast.Name):
+            if f.id in self.locals:
+                return None
+            r = self.resolve_name(f.id, [])
+        else:
+            ch = self.tr.attr_chain(f)
+            if ch is None:
+                return None
+            r = self.resolve_name(ch[0], ch[1])
+        if r is not None and r[0] == "ext":
+            return proc_setter_key(r[1])
+        return None
+
+    def proc_store_key(self, t):
+        """store into  <module | class | module-level object>.attr...  (also through a subscript of an external module's attribute)"""
+        sub = False
+        while isinstance(t, ast.Subscript):
+            t, sub = t.value, True
+        ch = self.tr.attr_chain(t)
+        if ch is None or not ch[1]:
+            return None
+        r = self.resolve_name(ch[0], ch[1])
+        if r is None or r[0] in ("fn", "pkg-unresolved"):
+            return None
+        if r[0] == "ext":
+            return "store:" + r[1]
+        if sub:
+            return None              # element stores into package-level containers (memo tables) are not settings
+        return "store:" + ".".join([ch[0]] + ch[1])
+
+    def proc_manager_keys(self, e):
+        if isinstance(e, ast.Call):
+            f = e.func
+            ch = self.tr.attr_chain(f)
+            if ch is not None and ch[0] not in self.locals:
+                r = self.resolve_name(ch[0], ch[1])
+                if r is not None and r[0] == "ext":
+                    return PROC_MANAGERS.get(r[1], set())
+        return set()
+
+    def proc_saved_value(self, exprs):
+        """the written value is taken from a local (a value saved earlier), not a constant / a name of an imported module."""
+        names = self.locals | self.own_names
+        for e in exprs:
+            for n in ast.walk(e):
+                if isinstance(n, ast.Name) and isinstance(n.ctx, ast.Load) and n.id in names:
+                    return True
+        return False
+
+    @staticmethod
+    def proc_stmt_parts(st):
+        """(expressions evaluated by the statement itself, nested blocks)"""
+        if isinstance(st, (ast.If, ast.While)):
+            return [st.test], [st.body, st.orelse]
+        if isinstance(st, (ast.For, ast.AsyncFor)):
+            return [st.target, st.iter], [st.body, st.orelse]
+        if isinstance(st, (ast.With, ast.AsyncWith)):
+            ex = []
+            for it in st.items:
+                ex.append(it.context_expr)
+                if it.optional_vars is not None:
+                    ex.append(it.optional_vars)
+            return ex, [st.body]
+        if isinstance(st, ast.Try) or type(st).__name__ == "TryStar":
+            return [h.type for h in st.handlers if h.type is not None], [st.body] + [h.body for h in st.handlers] + [st.orelse, st.finalbody]
+        if isinstance(st, (ast.FunctionDef, ast.AsyncFunctionDef, ast.ClassDef)):
+            return [], []
+        if hasattr(ast, "Match") and isinstance(st, ast.Match):
+            return [st.subject], [c.body for c in st.cases]
+        return [st], []
+
+    def proc_events_of(self, st):
+        """process-wide writes performed by the statement's own expressions: dicts key / node / values / call"""
+        exprs, _blocks = self.proc_stmt_parts(st)
+        out = []
+        value = []
+        if isinstance(st, (ast.Assign, ast.AugAssign, ast.AnnAssign)) and getattr(st, "value", None) is not None:
+            value = [st.value]
+        for n in self.walk_scope(exprs):
+            if isinstance(n, ast.Call):
+                k = self.proc_call_key(n)
+                if k is not None:
+                    out.append({"key": k, "node": n.func, "call": n, "values": list(n.args) + [kw.value for kw in n.keywords],
+                                "line": n.lineno})
+            elif isinstance(n, (ast.Attribute, ast.Subscript)) and isinstance(n.ctx, (ast.Store, ast.Del)):
+                k = self.proc_store_key(n)
+                if k is not None:
+                    node = n
+                    while isinstance(node, ast.Subscript):
+                        node = node.value
+                    out.append({"key": k, "node": node, "call": None, "values": value, "line": n.lineno})
+        return out
+
+    def proc_restored_keys(self, stmts):
+        """settings written from a saved value somewhere in these statements (nested blocks included)."""
+        keys = set()
+        for st in stmts:
+            for ev in self.proc_events_of(st):
+                if self.proc_saved_value(ev["values"]):
+                    keys.add(ev["key"])
+            for b in self.proc_stmt_parts(st)[1]:
+                keys |= self.proc_restored_keys(b)
+        return keys
+
+    def proc_except_restores(self, tr_st, later):
+        """keys restored by `except BaseException / bare except: <restore>; raise` AND again on the normal path (else-clause or
+        a later statement of the same block)."""
+        keys = set()
+        for h in tr_st.handlers:
+            catches_all = h.type is None or (isinstance(h.type, ast.Name) and h.type.id == "BaseException")
+            if catches_all and any(isinstance(x, ast.Raise) for x in h.body):
+                keys |= self.proc_restored_keys(h.body)
+        if not keys:
+            return keys
+        normal = self.proc_restored_keys(tr_st.orelse) | self.proc_restored_keys(later)
+        return keys & normal
+
+    def proc_protected_keys(self, tr_st, later):
+        return self.proc_restored_keys(tr_st.finalbody) | self.proc_except_restores(tr_st, later)
+
+    def proc_quiet_stmt(self, st):
+        """a statement between a setter and its try that cannot run user code: no call except external functions (getters) and
+        pure builtins."""
+        if not isinstance(st, (ast.Assign, ast.AnnAssign, ast.AugAssign, ast.Expr, ast.Pass)):
+            return False
+        for n in ast.walk(st):
+            if isinstance(n, ast.Call):
+                f = n.func
+                if isinstance(f, ast.Name):
+                    if f.id in self.locals:
+                        return False
+                    r = self.resolve_name(f.id, [])
+                    if not ((r is not None and r[0] == "ext") or (r is None and f.id in PURE_BUILTINS)):
+                        return False
+                else:
+                    ch = self.tr.attr_chain(f)
+                    r = self.resolve_name(ch[0], ch[1]) if ch is not None else None
+                    if r is None or r[0] != "ext":
+                        return False
+            elif isinstance(n, (ast.Yield, ast.YieldFrom, ast.Await)):
+                return False
+        return True
+
+    def proc_scan(self, stmts, fin_keys, restoring, managed):
+        for i, st in enumerate(stmts):
+            exprs, blocks = self.proc_stmt_parts(st)
+            with_calls = set()
+            if isinstance(st, (ast.With, ast.AsyncWith)):
+                with_calls = {id(it.context_expr) for it in st.items}
+            for ev in self.proc_events_of(st):
+                key = ev["key"]
+                self._proc_events.append(ev)
+                ok = False
+                if ev["call"] is not None and id(ev["call"]) in with_calls:
+                    ok = True                     # the call is the context manager itself
+                elif key in fin_keys or key in managed:
+                    ok = True
+                elif key in restoring and self.proc_saved_value(ev["values"]):
+                    ok = True                     # the restoring write
+                else:
+                    for j in range(i + 1, len(stmts)):
+                        st2 = stmts[j]
+                        if isinstance(st2, ast.Try) and key in self.proc_protected_keys(st2, stmts[j + 1:]):
+                            ok = True
+                            break
+                        if not self.proc_quiet_stmt(st2):
+                            break
+                if ok:
+                    self._proc_ok.add(id(ev["node"]))
+            if isinstance(st, ast.Try) or type(st).__name__ == "TryStar":
+                later = stmts[i + 1:]
+                prot = self.proc_protected_keys(st, later)
+                exc_keys = self.proc_except_restores(st, later)
+                self.proc_scan(st.body, fin_keys | prot, restoring, managed)
+                for h in st.handlers:
+                    self.proc_scan(h.body, fin_keys | self.proc_restored_keys(st.finalbody), restoring | exc_keys, managed)
+                self.proc_scan(st.orelse, fin_keys | self.proc_restored_keys(st.finalbody), restoring | exc_keys, managed)
+                self.proc_scan(st.finalbody, fin_keys, restoring | self.proc_restored_keys(st.finalbody), managed)
+                # the normal-path half of the except-BaseException pattern may stand after the try
+                if exc_keys:
+                    for st2 in later:
+                        for ev in self.proc_events_of(st2):
+                            if ev["key"] in exc_keys and self.proc_saved_value(ev["values"]):
+                                self._proc_ok.add(id(ev["node"]))
+            elif isinstance(st, (ast.With, ast.AsyncWith)):
+                m2 = set(managed)
+                for it in st.items:
+                    m2 |= self.proc_manager_keys(it.context_expr)
+                self.proc_scan(st.body, fin_keys, restoring, m2)
+            else:
+                for b in blocks:
+                    self.proc_scan(b, fin_keys, restoring, managed)
+
+    def proc_analysis(self):
+        if self._proc_ok is not None:
+            return
+        self._proc_ok, self._proc_events = set(), []
+        if self.fn.node is None:
+            return
+        self.proc_scan(list(self.body), frozenset(), frozenset(), frozenset())
+        # __enter__ / __exit__ of one class: the pair is a context manager if __exit__ restores from a saved value
+        fn = self.fn
+        if fn.cls is not None and fn.simple in ("__enter__", "__exit__") and fn.parent is None:
+            ex = [g for g in fn.cls.methods.get("__exit__", []) if g in self.tr.visitors]
+            if ex and fn.cls.methods.get("__enter__"):
+                xv = self.tr.visitors[ex[0]]
+                restored = xv.proc_restored_keys(list(xv.body))
+                for ev in self._proc_events:
+                    if ev["key"] in restored and (fn.simple == "__enter__" or self.proc_saved_value(ev["values"])):
+                        self._proc_ok.add(id(ev["node"]))
+
+    def proc_reference(self, r, n):
+        """effects are attached to references: mentioning a process-wide setter (called here, aliased, handed over) counts."""
+        if r[0] == "ext" and isinstance(n.ctx, ast.Load):
+            key = proc_setter_key(r[1])
+            if key is not None:
+                self.proc_write(key, n)
+
+    def proc_write(self, key, n):
+        """a reference to a process-wide setter / a store into process-wide state at node n"""
+        self.proc_analysis()
+        if id(n) in self._proc_ok:
+            return
+        what = key[6:] if key.startswith("store:") else key
+        self.fn.add("Environ", getattr(n, "lineno", 0),
+                    "process-wide setting %s is written and not restored on every path (no try/finally, no context manager): "
+                    "hidden state that the seeding call does not reset" % what)
 
     # ------------------------------------------------------------ clock values inside callbacks/timer.py
     # ClockTimer is only a licence to STORE clock values in the Timer's own attributes and to PRINT them.  Any other flow
@@ -1531,6 +1816,13 @@ class FnVisitor:
             fn.mutates = True
 
     def store_target(self, t, line, aug=False):
+        if isinstance(t, (ast.Subscript, ast.Attribute)):
+            pk = self.proc_store_key(t)
+            if pk is not None:
+                node = t
+                while isinstance(node, ast.Subscript):
+                    node = node.value
+                self.proc_write(pk, node)
         if isinstance(t, ast.Subscript):
             if not aug and isinstance(t.value, ast.Name) and self.is_container_name(t.value.id):
                 return           # d[k] = v on a dict / list built in this function: a container update, not a tensor write
@@ -1614,6 +1906,7 @@ class FnVisitor:
         if r is not None:
             self.apply_resolved(r, n.lineno, name)
             self.inplace_value(r, n)
+            self.proc_reference(r, n)
             return
         if name in BUILTIN_ATOMS:
             for a in BUILTIN_ATOMS[name]:
@@ -1678,6 +1971,7 @@ class FnVisitor:
                 e._chain_root = True
                 self.apply_resolved(r, n.lineno, ".".join([root] + attrs))
                 self.inplace_value(r, n)
+                self.proc_reference(r, n)
                 return
             for a in attrs:
                 self.by_name_edges(a)
